@@ -294,7 +294,7 @@ impl MethodGen {
 			CA::Smt(fs) => { let mut prev: Option<usize> = None; for (k, _, _) in fs { let off = lay[*k]; deltas.push(match prev { None => off, Some(p) => off - p - 1 }.to_string()); prev = Some(off); } }
 		} }
 		format!("({{| ci_code := {}; ci_exc := [{}]; ci_lines := [{}]; ci_ranges := [{}]; ci_frames := [{}]; ci_points := [{}] |}}, [{}])",
-			fbh::gal::gnums(self.code.iter().map(|b| *b as u64)),
+			glist_rle(&self.code.iter().map(|b| b.to_string()).collect::<Vec<_>>()),
 			self.exc.iter().map(|(s, e, h, _)| format!("({}, {}, {})", lay[*s], lay[*e], lay[*h])).collect::<Vec<_>>().join("; "),
 			lines.join("; "), ranges.join("; "), deltas.join("; "),
 			self.uninit_points().iter().map(|k| lay[*k].to_string()).collect::<Vec<_>>().join("; "),
@@ -375,7 +375,7 @@ fn first_diff(a: &XSem, b: &XSem) -> String {
 
 /// generated classes: the main stream
 fn stream_generated(ctx: &Ctx, r: &mut Report, rng: &mut Rng) {
-	let classes = if ctx.thorough { 400 } else { 60 };
+	let classes = if ctx.thorough { 300 } else { 60 };
 	for ci in 0..classes {
 		let big = ci % 3 != 0;
 		let u = build_universe(rng, big);
@@ -603,7 +603,7 @@ fn stream_unknown(ctx: &Ctx, r: &mut Report, rng: &mut Rng) {
 // Err / on what is still delivered (no oracle: these are not well-formed class files)
 fn stream_broken(ctx: &Ctx, r: &mut Report, rng: &mut Rng) {
 	let u = build_universe(rng, false);
-	for _ in 0..(if ctx.thorough { 400 } else { 80 }) {
+	for _ in 0..(if ctx.thorough { 240 } else { 80 }) {
 		let n = rng.range(2, 12);
 		let mut m = gen_method(rng, &u, n, true);
 		let clen = m.code.len();
@@ -630,6 +630,71 @@ fn stream_broken(ctx: &Ctx, r: &mut Report, rng: &mut Rng) {
 	}
 }
 
+/// code_length at its limits, through the model as well: 0 (rejected), 65535 (the largest), 65536 (rejected)
+fn stream_code_length(ctx: &Ctx, r: &mut Report, rng: &mut Rng) {
+	let u = build_universe(rng, false);
+	let mut lens: Vec<usize> = vec![0, 1, 6];
+	lens.extend([3000, 65535, 65536]);
+	let _ = ctx;
+	for len in lens {
+		let (body, ch): (Vec<Insn<usize>>, Vec<Choice>) = if len < 6 {
+			((0..len).map(|_| Insn::Gen(177, vec![])).collect(), (0..len).map(|_| Choice { form: Form::Plain(177), fill: 0 }).collect())
+		} else {
+			// nop … nop; goto_w 0; return
+			let mut b: Vec<Insn<usize>> = (0..len - 6).map(|_| Insn::Gen(0, vec![])).collect();
+			let mut c: Vec<Choice> = (0..len - 6).map(|_| Choice { form: Form::Plain(0), fill: 0 }).collect();
+			b.push(Insn::Gen(167, vec![Op::T(0)])); c.push(Choice { form: Form::Plain(0xc8), fill: 0 });
+			b.push(Insn::Gen(177, vec![])); c.push(Choice { form: Form::Plain(177), fill: 0 });
+			(b, c)
+		};
+		let lay = layout(&ch, &body);
+		let code = encode(&ch, &body).expect("encodes");
+		assert_eq!(code.len(), len);
+		let m = MethodGen { body, ch, code, lay, exc: vec![], attrs: vec![] };
+		let mut pool = u.pool.clone();
+		let bytes = class_of(&u, std::slice::from_ref(&m), &mut pool);
+		r.eval(&format!("code_length:{len}"), true);
+		r.count(&format!("code_length_{len}"));
+		let got = read_with_duke(&bytes);
+		let valid = (1..=65535).contains(&len);
+		match &got {
+			Outcome::Panic(p) => { r.violation(format!("read_class panicked on a method of code_length {len}: {p}"), format!("property C01\nwhat: code_length {len}: nop x {}, goto_w 0, return\n", len.saturating_sub(6))); continue; }
+			Outcome::Err if valid => r.violation(format!("read_class rejects a method of code_length {len}"), format!("property C01\nwhat: code_length {len} (valid): nop x {}, goto_w 0, return is rejected\n", len.saturating_sub(6))),
+			Outcome::Ok(v) if valid && v[0] != m.truth(&u) => r.violation(format!("code_length {len}: {}", first_diff(&v[0], &m.truth(&u))), format!("property C01\nwhat: code_length {len}: nop x {}, goto_w 0, return is not delivered as written\n", len.saturating_sub(6))),
+			_ => {}
+		}
+		let res = match &got { Outcome::Ok(v) => format!("(Ok [{}])", v.iter().map(g_xsem).collect::<Vec<_>>().join("; ")), _ => "Err".into() };
+		r.case("code-length", format!("CClass {} {} [{}] {}", pool.gallina(), g_bsm(&u.bsm), m.g_code_in(), res));
+	}
+}
+
+/// header: magic and version gate
+fn stream_header(_ctx: &Ctx, r: &mut Report, rng: &mut Rng) {
+	let mut pool = Pool::new();
+	let this = pool.class("p/H"); let sup = pool.class("java/lang/Object");
+	let mut vs: Vec<(u32, u16, u16)> = vec![];
+	for major in 44..=69u16 { for minor in [0u16, 1, 3, 65535] { vs.push((0xCAFEBABE, minor, major)); } }
+	for _ in 0..20 { vs.push((0xCAFEBABE, rng.next() as u16, rng.next() as u16)); }
+	for mg in [0xCAFEBABFu32, 0xCAFEBABD, 0, 0xBEBAFECA] { vs.push((mg, 0, 52)); }
+	for (mg, minor, major) in vs {
+		let mut bytes = class_bytes(&pool, minor, major, 0x21, this, sup, &[], &[], &[], &[]);
+		bytes[0..4].copy_from_slice(&mg.to_be_bytes());
+		let b2 = bytes.clone();
+		let got = guarded(move || duke::read_class(&mut Cursor::new(b2)).is_ok());
+		// JVMS 4.1: magic 0xCAFEBABE; versions 45.0 .. 67.0 (the property's range), minor 0 or 65535 from major 56 on
+		let valid = mg == 0xCAFEBABE && (45..=67).contains(&major) && (major < 56 || minor == 0 || (minor == 65535 && major < 67));
+		r.eval(&hex(&bytes), valid);
+		match got {
+			Err(p) => r.violation(format!("read_class panicked on the header {mg:#x} {major}.{minor}: {p}"), format!("property C01\nwhat: header {mg:#x} version {major}.{minor} panics\nclass file (hex): {}\n", hex(&bytes))),
+			Ok(acc) => {
+				if valid && !acc { r.violation(format!("read_class rejects class file version {major}.{minor}"), format!("property C01\nwhat: a class file of version {major}.{minor} (valid per JVMS 4.1) is rejected\nclass file (hex): {}\n", hex(&bytes))); }
+				if mg != 0xCAFEBABE && acc { r.violation(format!("read_class accepts magic {mg:#x}"), format!("property C01\nwhat: wrong magic accepted\nclass file (hex): {}\n", hex(&bytes))); }
+				r.case("header", format!("CHeader {mg} {minor} {major} {acc}"));
+			}
+		}
+	}
+}
+
 pub fn run_all(ctx: &Ctx, r: &mut Report) -> anyhow::Result<()> {
 	let mut rng = Rng::new(ctx.seed);
 	r.rule = "generated classes: 1..8 methods sharing one generated constant pool (random group order, filler entries pushing indices across 255/256, duplicates, two-slot entries, nested dynamic constants), each body 1..120 random instructions over the whole instruction set with a random admissible encoding form per instruction (xload_n/xload/wide, ldc/ldc_w/ldc2_w, iinc/wide iinc, goto/goto_w, both switches at every padding), exception/line/local-variable/stack-map tables over random instruction indices in shuffled attribute order; the oracle compares what duke delivers with the description the class was generated from; a case is non-trivial when the class has at least one instruction; distinct by class bytes".into();
@@ -639,23 +704,11 @@ pub fn run_all(ctx: &Ctx, r: &mut Report) -> anyhow::Result<()> {
 	stream_access(ctx, r, &mut rng.fork(3));
 	stream_unknown(ctx, r, &mut rng.fork(4));
 	stream_broken(ctx, r, &mut rng.fork(5));
+	stream_header(ctx, r, &mut rng.fork(7));
+	stream_code_length(ctx, r, &mut rng.fork(8));
 	crate::fstreams::stream_spec_knobs(ctx, r, &mut rng.fork(6));
 	crate::fstreams::stream_boundary(ctx, r);
 	crate::fstreams::stream_corpus(ctx, r);
-	if std::env::var("C01_PROBE").is_ok() { probe(r, &mut rng.fork(99)); }
 	Ok(())
 }
 
-/// ad-hoc probes of candidate defects (development aid, only with env C01_PROBE)
-fn probe(r: &mut Report, rng: &mut Rng) {
-	r.notes.push(format!("ModuleFlags 0x20 -> {:?}; 0x10 -> {:?}", duke::tree::module::ModuleFlags::from(0x20u16), duke::tree::module::ModuleFlags::from(0x10u16)));
-	let u = build_universe(rng, false);
-	for _ in 0..50 {
-		let mut pool = u.pool.clone();
-		let mut m = gen_method(rng, &u, 6, true);
-		let n = m.body.len();
-		m.exc = vec![(0, n, 1, 0)];
-		let bytes = class_of(&u, &[m], &mut pool);
-		match read_with_duke(&bytes) { Outcome::Ok(_) => r.count("probe_exc_end_ok"), Outcome::Err => r.count("probe_exc_end_err"), Outcome::Panic(_) => r.count("probe_exc_end_panic") }
-	}
-}
